@@ -314,6 +314,10 @@ func c13Commands(c *core.Ctx, i int, tree string, info gen.TreeInfo) {
 	if len(info.FilePaths) > 1 {
 		ops = append(ops, "delete", info.FilePaths[(r.Intn(len(info.FilePaths)-1)+1)%len(info.FilePaths)], "--")
 	}
+	// another file is replaced by other content of the same size, modification time restored
+	if len(info.FilePaths) > 2 {
+		ops = append(ops, "samesize", info.FilePaths[(r.Intn(len(info.FilePaths)-2)+2)%len(info.FilePaths)], "--")
+	}
 	ops = append(ops, "say", "done\nwith two lines")
 	before, berr, ab1 := ref.Record([]string{"."}, opts)
 	id := fmt.Sprintf("run/%d", i)
@@ -533,7 +537,7 @@ func init() {
 	core.Register(&core.Property{
 		ID:    "C13",
 		Level: "exploration",
-		Rule: "seeded real directory trees (depth<=4, <=40 entries; empty, binary, CR/LF/CRLF-mixed files; file symlinks relative and absolute, directory symlinks, chains, two routes to one file, self/mutual loops, ancestor links, link to the root, dangling links; same-named files in different directories) x 6-10 option sets each (9 algorithm lists incl. unknown and empty names, normalisation, follow-directory-symlinks, exclude {none, *.tmp, one basename, several}, paths {., absolute root, directory+file, single file, missing path}, strip {none, root, one directory, several nested/colliding prefixes}) through RecordArtifacts; per tree also InTotoRun with a command that creates/modifies/deletes files, InTotoRecordStart/Stop with changes in between, InTotoMatchProducts after local tampering; one worker runs as uid 65534 and makes every file and directory of a tree unreadable in turn (real EACCES; fault enumeration over the tree). Oracle = reference recorder (harness/ref/record.go). " +
+		Rule: "seeded real directory trees (depth<=4, <=40 entries; empty, binary, CR/LF/CRLF-mixed files; file symlinks relative and absolute, directory symlinks, chains, two routes to one file, self/mutual loops, ancestor links, link to the root, dangling links; same-named files in different directories) x 6-10 option sets each (9 algorithm lists incl. unknown and empty names, normalisation, follow-directory-symlinks, exclude {none, *.tmp, one basename, several}, paths {., absolute root, directory+file, single file, missing path}, strip {none, root, one directory, several nested/colliding prefixes}) through RecordArtifacts; per tree also InTotoRun with a command that creates/modifies/deletes files and replaces one by other content of the same size with its modification time restored, InTotoRecordStart/Stop with changes in between, InTotoMatchProducts after local tampering; one worker runs as uid 65534 and makes every file and directory of a tree unreadable in turn (real EACCES; fault enumeration over the tree). Oracle = reference recorder (harness/ref/record.go). " +
 			"non-trivial = tree has >=2 files and a symlink, CR content, strip or exclude; distinct = (tree number, option set)",
 		Assumptions: []string{
 			"exclude patterns are limited to *.<ext> and plain basenames; directories, symlinks and symlink targets are never named so that they match (go-pathspec matches the whole walked path and does not prune excluded directories - outside the statement)",
